@@ -258,6 +258,7 @@ def check(prog, rep):
     rep.assumptions += ["declared domains: serial 1..9999999, res_seq -999..99999, names 1-4 chars, chain/iCode 0-1 "
                         "char, |x|,|y|,|z| <= 99999.999, |q| < 10, 0 <= r < 10"]
     rep.not_decided += ["numeric rendering of individual values beyond width/precision"]
+    rep.guarded(rule_model_atoms, prog, rep)  # first: a violation found on the model atoms stands even if the layouts below cannot be analysed
     eng, finals = writer_layouts(prog)
     rep.analysed["layout_paths"] = len(finals)
     where = "pdb2pqr/structures.py (Atom.get_common_string_rep / get_pqr_string)"
@@ -379,3 +380,104 @@ def rule_chainflag(prog, rep):
     pba = prog.func("io.py", "print_biomolecule_atoms").node
     fw = [U(k.value) for c in calls_in(pba) if U(c.func).endswith("get_pqr_string") for k in c.keywords if k.arg == "chainflag"]
     r5.add("chainflag|printer", fw == ["chainflag"], f"print_biomolecule_atoms hands {fw} to get_pqr_string", f"pdb2pqr/io.py:{pba.lineno} (print_biomolecule_atoms)")
+
+
+# model atoms whose every field fits the columns of the format (values beyond them are R1's business): each row varies several fields
+MODEL_ATOMS = [
+    # type, serial, name, res_name, chain, res_seq, ins_code, x, y, z, charge, radius
+    ("ATOM", 1, "N", "MET", "A", 1, "", 26.8, 41.153, 3.834, -0.32, 2.0),
+    ("ATOM", 99999, "HD11", "LEU", "B", 9999, "", 1234.568, -999.999, 9999.999, 0.1234, 1.487),
+    ("HETATM", 1234, "O", "HOH", "", 301, "", -0.001, 0.0005, 0.0, -0.834, 1.7683),
+    ("HETATM", 12345, "C1", "LIG", "C", -999, "", 2500.125, 1000.0, -150.375, 9.9999, 9.9999),
+    ("ATOM", 20, "HT1", "TER", "A", 1, "", -123.456, 2.0, -99.999, 0.33, 0.2245),
+    ("ATOM", 21, "OT1", "TER", "", 129, "", 100.0, 999.9995, 5432.101, -0.67, 1.7),
+    ("ATOM", 300, "1HD1", "ILE", "A", -1, "", 7.0, 8.0, 9.0, -9.9999, 0.0),
+    ("ATOM", 301, "P", "A", "A", 12, "", 0.0004, -0.0004, 1999.9994, 1.1659, 2.1),
+    ("ATOM", 302, "C5'", "DA5", "A", 13, "", 10.0, 100.0, 1000.0, -0.0069, 1.908),
+    ("ATOM", 303, "CA", "CYX", "D", 1000, "", 4321.0005, 0.1, -0.1, 0.0001, 0.0001),
+    ("ATOM", 304, "CA", "HIS", "A", 52, "A", 1.0, 2.0, 3.0, 0.0188, 1.908),
+]
+
+
+def rule_model_atoms(prog, rep):
+    """The writer (Atom.get_pqr_string, then print_pqr) is evaluated on model atoms; the line is read back by an independent reader - fixed
+    columns for the default layout, blank-separated tokens for --whitespace - and compared with the atom to the property's precision."""
+    from ..guards import Flow, Obj
+    from ..objinterp import ObjRunner
+    from .shared import written_file
+    r = rep.rule("R7", "model atoms: every field of the written record reads back as the model value to the stated precision", floor=20)
+    where = "pdb2pqr/structures.py (Atom.get_pqr_string) / pdb2pqr/main.py (print_pqr)"
+    keys = ("type", "serial", "name", "res_name", "chain_id", "res_seq", "ins_code", "x", "y", "z", "charge", "radius")
+    tol = {"x": 0.001, "y": 0.001, "z": 0.001, "charge": 0.0001, "radius": 0.0001}
+
+    def differs(field, got, want):
+        if field in tol:
+            return got is None or abs(got - want) > tol[field] / 2 + 1e-9  # a value rounded to the stated precision is at most half a unit off
+        return got != want
+
+    for rec in MODEL_ATOMS:
+        f = dict(zip(keys, rec))
+        for chainflag in (False, True):
+            a = Obj({"__class__": "Atom", "type": f["type"], "serial": f["serial"], "name": f["name"], "res_name": f["res_name"], "chain_id": f["chain_id"],
+                     "res_seq": f["res_seq"], "ins_code": f["ins_code"], "x": f["x"], "y": f["y"], "z": f["z"], "ffcharge": f["charge"],
+                     "radius": f["radius"], "alt_loc": "", "occupancy": 1.0, "temp_factor": 0.0, "seg_id": "", "element": "", "charge": "", "residue": None})
+            run = ObjRunner(prog, "structures.py")
+            tag = f"{f['type']}:{f['serial']}|{'--keep-chain' if chainflag else 'no chain'}"
+            try:
+                line = run.call(a, "get_pqr_string", chainflag=chainflag)
+            except Flow as fl:
+                r.bad(f"atom|{tag}|written", f"get_pqr_string stops with {fl.value} on the model atom {rec}", where)
+                continue
+            if not isinstance(line, str):
+                raise AnalysisError("Atom.get_pqr_string did not return a string on a model atom")
+            want = dict(f)
+            if not chainflag:
+                want["chain_id"] = ""
+            # default layout, fixed columns (wwPDB columns up to z; charge and radius follow as two blank-separated numbers)
+            tail = line[54:].split()
+            got = {"type": line[0:6].strip(), "serial": _int(line[6:11]), "name": line[12:16].strip(), "res_name": line[16:20].strip(),
+                   "chain_id": line[21:22].strip(), "res_seq": _int(line[22:26]), "ins_code": line[26:27].strip(), "x": _flt(line[30:38]),
+                   "y": _flt(line[38:46]), "z": _flt(line[46:54]), "charge": _flt(tail[0]) if len(tail) == 2 else None,
+                   "radius": _flt(tail[1]) if len(tail) == 2 else None}
+            bad = {k: (got[k], want[k]) for k in keys if differs(k, got[k], want[k])}
+            r.add(f"atom|{tag}|columns", not bad, f"{line.rstrip()!r}: " + ("every field reads back from its columns" if not bad else
+                  f"read back by columns (read, model): {bad}"), where)
+            # --whitespace layout, blank-separated tokens (insertion codes are glued to the residue number: listed finding R2|sep|res_seq+ins_code)
+            if f["ins_code"]:
+                continue
+            try:
+                ws = written_file(prog, [line if line.endswith("\n") else line + "\n"], True, False)
+            except AnalysisError:
+                continue
+            toks = ws[0].split() if ws else []
+            exp = [want["type"], want["serial"], want["name"], want["res_name"]] + ([want["chain_id"]] if want["chain_id"] else []) + \
+                  [want["res_seq"], want["x"], want["y"], want["z"], want["charge"], want["radius"]]
+            names = ["type", "serial", "name", "res_name"] + (["chain_id"] if want["chain_id"] else []) + ["res_seq", "x", "y", "z", "charge", "radius"]
+            if want["type"] == "HETATM" and want["serial"] > 9999 and toks and toks[0].startswith("HETATM") and toks[0] != "HETATM":
+                toks = ["HETATM", toks[0][6:]] + toks[1:]  # record name and a five-digit serial share a token; readers split it off (C07.R9)
+            if len(toks) == len(exp) - 1 and want["chain_id"] and len(str(want["res_seq"])) == 4:
+                continue  # chain and a four-character residue number merge: listed finding R2|sep|chain_id+res_seq
+            badt = {}
+            if len(toks) != len(exp):
+                badt["tokens"] = (toks, len(exp))
+            else:
+                for k, t, w in zip(names, toks, exp):
+                    g = _int(t) if k in ("serial", "res_seq") else _flt(t) if k in tol else t
+                    if differs(k, g, w):
+                        badt[k] = (g, w)
+            r.add(f"atom|{tag}|tokens", not badt, f"{(ws[0] if ws else '').rstrip()!r}: " + ("every field reads back as a token" if not badt else
+                  f"read back by tokens (read, model): {badt}"), where)
+
+
+def _int(txt):
+    try:
+        return int(txt)
+    except ValueError:
+        return None
+
+
+def _flt(txt):
+    try:
+        return float(txt)
+    except ValueError:
+        return None
